@@ -131,22 +131,49 @@ def view_wml(body):
     return out
 
 
-def canon_self_urls(view, port):
-    """a gopher:// URL that names this very server (same host and port) is the same target as the
-    local link to that selector: equivalent link targets"""
-    pre = b"gopher://" + SERVER + b":" + str(port).encode() + b"/"
+GOPHER_URL = re.compile(rb"gopher://(\[[^\]/]*\]|[^/:]*)(?::(-?\d*))?(?:/(.*))?$", re.S | re.I)
+
+
+def parse_gopher_url(url):
+    """RFC 4266: gopher://<host>:<port>/<gopher-path>, <gopher-path> = <gophertype><selector>, percent-encoded;
+    no path at all or an empty one is the root menu.  -> (host, port, type, selector) or None"""
+    m = GOPHER_URL.match(url)
+    if not m:
+        return None
+    host, port, path = m.group(1), m.group(2), m.group(3)
+    path = urllib.parse.unquote_to_bytes(path or b"")
+    try:
+        port = int(port) if port not in (None, b"") else 70
+    except ValueError:
+        return None
+    if path == b"":
+        return (host.lower(), port, "1", b"")
+    return (host.lower(), port, chr(path[0]), path[1:])
+
+
+def canon_targets(view, port):
+    """Targets as a client resolves them: a gopher:// URL is the tuple (host, port, type, selector) it
+    stands for, so that two spellings of one target compare equal and two targets never do; a gopher://
+    URL that names this very server (same host and port) is the local link to that selector."""
     out = []
     for kind, name, target in view:
-        if kind == "url" and target is not None and target.startswith(pre) and len(target) > len(pre):
-            out.append(("link", name, urllib.parse.unquote_to_bytes(target[len(pre) + 1:])))
-        else:
+        g = parse_gopher_url(target) if kind == "url" and target is not None else None
+        if g is None:
             out.append((kind, name, target))
+        elif g[0] == SERVER and g[1] == port and not (g[3] == b"" and g[2] != "1"):
+            out.append(("link", name, g[3]))
+        else:
+            out.append(("url", name, (b"gopher",) + g))
     return out
+
+
+def canon_self_urls(view, port):
+    return canon_targets(view, port)
 
 
 def view_page(proto, resp, port=None):
     """(kind, name, target) sequence a client of `proto` sees in a directory page; raises Malformed"""
-    return canon_self_urls(_view_page(proto, resp, port), PORT if port is None else port)
+    return canon_targets(_view_page(proto, resp, port), PORT if port is None else port)
 
 
 def _view_page(proto, resp, port=None):
@@ -161,3 +188,23 @@ def _view_page(proto, resp, port=None):
     if proto == "wap":
         return view_wml(body)
     return view_gemtext(body)
+
+
+def gplus_info_lines(body):
+    """the +INFO lines (item descriptors) of a Gopher+ attribute listing, as a plain menu"""
+    out = []
+    for line in body.split(b"\r\n"):
+        if line.startswith(b"+INFO: "):
+            out.append(line[len(b"+INFO: "):] + b"\r\n")
+        elif line.startswith(b"+INFO:"):
+            out.append(line[len(b"+INFO:"):] + b"\r\n")
+    return b"".join(out)
+
+
+def view_gplus_dir(proto, resp, port=None):
+    """the listing a client reads off the reply to a Gopher+ "$..." request: one item per +INFO line"""
+    v = V.validate(proto, resp)
+    if v["kind"] != "success":
+        raise V.Malformed("not a success response")
+    port = PORT if port is None else port
+    return canon_targets(view_gopher(V.parse_gopher_menu(gplus_info_lines(v["body"])), port), port)
